@@ -398,6 +398,11 @@ def rule_keyparam(ctx):
                     shown = tm.show(val, 4)
             elif val is not None:
                 shown = "%s(%s)" % (kind, tm.show(val, 4))
+            if good and kind == "default" and em.kwname and any(n_ == "**" and em.kwname in tm.params_of(v_) for n_, v_ in cs.kw):
+                # the value is only the callee's default while the caller's own **kwargs reach this call: a caller who
+                # passes the keyword changes an entry whose name promises a fixed value
+                good = False
+                shown += ", not pinned: the caller's %s overrides it" % pname
             callee = tm.callee_name(cs.fn)
             # the parameter must exist in the callee, otherwise the forced value is dropped (KWLIVE reports the store)
             has = accepts(ctx, callee, pname)
